@@ -36,6 +36,14 @@ CLAIMED = {
      text='Untwisted coefficients describe the same surfaces (harmonics 1, 2, 3; identity at helicity 0); iotaN = iota + helicity*nfp; B_mag returns the prescribed |B| in the helical angle and the cylindrical / Boozer conventions agree; the helicity counter is an integer, odd under mirror and reversal, invariant under rotation of the origin, and equals the signed number of 4->1 crossings.',
      note='Not proved: the quadrant counter equals the winding number of the continuous normal only on a resolved grid (checked numerically against an unwrapped-angle winding number); spline error off the nodes; the factor sG*spsi multiplying the counter is glue outside the model (covered by the correspondence).',
      ref='DESIGN.md section 6 C13'),
+ 'C09': dict(level='proof', technique='Coq theorems (field/ring, Leibniz rule in a differential ring) over the programs regenerated from init_axis, r1_diagnostics, calculate_grad_B_tensor, Bfield_cylindrical, grad_B_tensor_cartesian and _residual, linked through one object state',
+     text='Trace-free and curl = 2 sG spsi I2 in the continuum model (the latter from the sigma equation), contraction with a first-order displacement = first-order field vector, |B| to first order, Cartesian = rotated cylindrical with equal Frobenius norm, Frobenius norm = Frenet double contraction, L_grad_B formula.',
+     note='Hypotheses: admissibility, sigma equation holds at the returned solution, orthonormal frame (C03). Not proved: size of the discrete trace/curl defect; min_L_grad_B (spectral-minimum oracle).',
+     ref='DESIGN.md section 6 C09'),
+ 'C19': dict(level='proof', technique='reflective dimension and sign checkers (Coq, proved sound) on both branches of the regenerated calculate_shear; numeric oracle; two known findings',
+     text='iota2 has dimension length^-2 field^0 and flips sign under mirror (both branches) and toroidal reversal (symmetric branch), for every grid size and input. Field-reversal invariance and origin independence are REFUTED on the real code (known findings).',
+     note='Harness only: field-period representation, continuity under infinitesimal symmetry breaking, convergence in nphi. The reduced solve and the trapezoid rule enter through their defining equations / weights (validated each run).',
+     ref='DESIGN.md section 6 C19'),
 }
 checks, na = [], []
 for p in props:
